@@ -1041,6 +1041,8 @@ class sptensor:
             return C
 
         if isinstance(other, ttb.tensor):
+            if not self.shape == other.shape:
+                assert False, "Must be tensors of the same shape"
             BB = sptensor(self.subs, other[self.subs][:, None], self.shape)
             C = self.logical_and(BB)
             return C
@@ -1126,6 +1128,8 @@ class sptensor:
          [1. 1.]]
         """
         # Case 1: Argument is a scalar or tensor
+        if isinstance(other, ttb.tensor) and self.shape != other.shape:
+            assert False, "Logical Or requires tensors of the same size"
         if isinstance(other, (float, int, ttb.tensor)):
             return self.full().logical_or(other)
 
@@ -1196,6 +1200,8 @@ class sptensor:
          [1. 0.]]
         """
         # Case 1: Argument is a scalar or dense tensor
+        if isinstance(other, ttb.tensor) and self.shape != other.shape:
+            assert False, "Logical XOR requires tensors of the same size"
         if isinstance(other, (float, int, ttb.tensor)):
             return self.full().logical_xor(other)
 
